@@ -1670,11 +1670,28 @@ fn run(ctx: &Ctx) -> ShardOut {
     let sets = ConfigSets::new(ctx.thorough());
     let mut tally = Tally { hit: 0, not_reached: 0, changed: 0 };
     let jobs = enumerate_jobs(ctx.thorough());
-    let mut idx = 0u64;
+    let mut idx;
     let mut done = 0u64;
     let mut mine = 0u64;
-    for job in &jobs {
-        idx += 1;
+    // Execution order inside a shard: the families advance PROPORTIONALLY (the k-th tenth of every
+    // family before the (k+1)-th tenth of any), so that a wall-clock cap on a loaded machine thins
+    // every family evenly instead of cutting the families at the end of the enumeration altogether.
+    // Which shard owns which setup is unchanged (position in the global enumeration).
+    let mut fam_size: std::collections::HashMap<&'static str, u64> = std::collections::HashMap::new();
+    for j in &jobs {
+        *fam_size.entry(j.setup.fam).or_insert(0) += 1;
+    }
+    let mut fam_seen: std::collections::HashMap<&'static str, u64> = std::collections::HashMap::new();
+    let mut order: Vec<(u64, u64, &Job)> = Vec::new();
+    for (pos, j) in jobs.iter().enumerate() {
+        let k = fam_seen.entry(j.setup.fam).or_insert(0);
+        let frac = (*k * 1_000_000) / fam_size[j.setup.fam];
+        *k += 1;
+        order.push((frac, pos as u64 + 1, j));
+    }
+    order.sort_by_key(|(frac, pos, _)| (*frac, *pos));
+    for (_, pos, job) in order {
+        idx = pos;
         if !ctx.mine(idx) {
             continue;
         }
@@ -1726,8 +1743,9 @@ fn run(ctx: &Ctx) -> ShardOut {
             out.sample(sample);
         }
     }
+    idx = jobs.len() as u64;
     if done < mine {
-        out.capped.push(format!("wall-clock cap: shard {} completed {} of its {} setups (enumeration order: dnf, dnf_allprobs, dnf4, nested, one_not, exclusive, missing, special, wide, dnf12)", ctx.shard, done, mine));
+        out.capped.push(format!("wall-clock cap: shard {} completed {} of its {} setups (the families advance proportionally, so every family was thinned evenly)", ctx.shard, done, mine));
     }
     // end to end
     let t_e2e = Instant::now();
